@@ -186,7 +186,14 @@ def _o_combine(call):
     lst = call.arg(0, "arrlist")
     wit = {"n_arrays": len(lst), "shapes": [list(a.shape) for a in lst], "names": [list(a.dtype.names) for a in lst]}
     allnames = list(itertools.chain(*[a.dtype.names for a in lst]))
-    bad = len(set(a.size for a in lst)) > 1 or len(set(allnames)) != len(allnames) or len(lst) == 0
+    def fits(sh):       # can an array of shape sh be assigned element for element into lst[0]'s shape?
+        try:
+            return np.broadcast_shapes(sh, lst[0].shape) == lst[0].shape
+        except ValueError:
+            return False
+    # "different length": another number of elements, or the same number arranged in rows of another length
+    bad = len(set(a.size for a in lst)) > 1 or len(set(allnames)) != len(allnames) or len(lst) == 0 or \
+        any(a.shape != lst[0].shape and not fits(a.shape) for a in lst)
     if bad:
         if call.exc is None:
             COL.violation("C07.combine", "arrays of different length / shared names accepted", wit)
@@ -366,6 +373,10 @@ def run_case(case):
             bad = list(lst)
             bad[-1] = gen.rand_table(rng, shape, nfields=1, names=[lst[0].dtype.names[0]])
             probe.attempt(nu.combine_fields, bad)        # shared name
+            # the same number of records arranged differently: (2,3) with (3,2), (6,) with (2,3), (4,) with (2,2)
+            sa, sb = [((2, 3), (3, 2)), ((6,), (2, 3)), ((2, 3), (6,)), ((4,), (2, 2)), ((2, 2), (4,))][int(rng.integers(0, 5))]
+            probe.attempt(nu.combine_fields, [gen.rand_table(rng, sa, nfields=2, kinds=KINDS, names=pool[:2], maxsub=2),
+                                              gen.rand_table(rng, sb, nfields=1, kinds=KINDS, names=pool[2:3], maxsub=2)])
     elif fam == "copy":
         # destination shares some fields (same or castable type), has own fields
         k = int(rng.integers(1, len(names) + 1))
